@@ -83,6 +83,28 @@ def plan(tier, seed, kf_ids):
                                 inst="%s->%s" % (ft, al), bounds="all NaN/inf bit patterns",
                                 allow=[lib_panic],
                                 expect_fail=[pat]))
+    # as far as the run budget allows: the boundary layouts of every family (decided after everything above)
+    if q:
+        have = {j.name for j in jobs}
+        for (s, w) in c.FAMILIES:
+            for f in sorted(set([0, 1, w // 2, w - 1, w])):
+                for ft in ("f32", "f64"):
+                    t, al = c.ty(s, w, f), c.alias(s, w, f)
+                    for form in (0, 3):
+                        name = "c05_from_%s_%s_%s" % (c.tag(s, w, f), ft, FORMS[form][:3])
+                        if name in have:
+                            continue
+                        jobs.append(Job(name, "#[kani::proof]\npub fn %s() { from_float::<%s, %s, %d>(); }" % (name, t, ft, form),
+                                        "for every finite %s bit pattern: the %s form of from_num into %s equals RNE(float*2^%d) with overflow decided on "
+                                        "the rounded value" % (ft, FORMS[form], al, f), timeout=600, inst="%s->%s" % (ft, al), bounds="all finite %s bit patterns" % ft))
+                        jobs[-1].prio = 8
+                    name = "c05_to_%s_%s" % (c.tag(s, w, f), ft)
+                    if name in have:
+                        continue
+                    jobs.append(Job(name, "#[kani::proof]\npub fn %s() { to_float::<%s, %s>(); }" % (name, t, ft),
+                                    "for every value of %s: to_num::<%s> is the IEEE-754 RNE result incl. subnormals and overflow to infinity" % (al, ft),
+                                    timeout=600, inst="%s->%s" % (al, ft), bounds="all 2^%d values" % w))
+                    jobs[-1].prio = 8
     return {
         "feature": "c05",
         "jobs": jobs,
